@@ -422,6 +422,16 @@ def guards(repo, res):
                     # the rule itself may still refuse (decided in R5)
                     pass
     res.check(not bad and n > 0, "offset-without-delta", fn.where(a.differ_if), "comparing / combining readings on two different offset scales (right operand converted by a bare factor) is refused before evaluation for every dimension-checked rule", "raise", bad[:4], rid=r4)
+    # (i-b) a zero operand without units of its own adopts the other operand's unit object inside the block (u1 = u0);
+    # that admits a *list of zero quantities* on another scale as well ([0 degF] * 3), whose own scale is no longer
+    # visible afterwards.  The offset refusal is the only thing that still stops `degC + <adopted>`: it must fire when
+    # the two unit names denote one and the same offset unit object, i.e. it must not be conditioned on their identity.
+    bad = []
+    for rule in ("_preserve_units", "_comparison_unit"):
+        for p0 in points:
+            if model.refused(rule, p0, p0, glob, assume=(a.differ_if.test,)) is None:
+                bad.append(f"{rule}({p0.name}, <zero operand that adopted {p0.name}>)")
+    res.check(not bad, "offset-refusal-after-adoption", fn.where(a.differ_if), "an operand that adopted the unit of an offset reading inside the block (bare zero - or a list of zero quantities on another offset scale, which counts as one) is combined with the reading instead of being refused: degC_array + [0 degF, 0 degF] returns values", "the offset refusal does not depend on the identity of the two unit objects", bad[:4], rid=r4)
     # the refusal precedes the rescaling of the second operand
     body = a.differ_if.body
     resc = [i for i, st in enumerate(body) if isinstance(st, ast.Assign) and norm(st.targets[0]) == "inp1"]
@@ -469,12 +479,13 @@ MUTANTS = [
     Mutant("div-guard-softened", UO, "Unit.__truediv__", '                raise InvalidUnitOperation(\n                    "Quantities with units of Farhenheit and Celsius cannot be divided."\n                )', "                base_offset = 0.0", ("C08-R2",)),
     Mutant("difference-returns-other", ARR, "_difference_units", "        if s1 in s2 and s2.startswith(\"delta_\"):\n            return 1, unit1", "        if s1 in s2 and s2.startswith(\"delta_\"):\n            return 1, unit2", ("C08-R3",)),
     Mutant("delta-guard-inverted", ARR, "unyt_array.__array_ufunc__", 'and not repr(u0).startswith("delta_")', 'and repr(u0).startswith("delta_")', ("C08-R4",)),
+    Mutant("offset-refusal-skips-adopted-unit", ARR, "unyt_array.__array_ufunc__", "                        offset is not None\n                        and u1.base_offset != 0.0", "                        offset is not None\n                        and u0 is not u1\n                        and u1.base_offset != 0.0", ("C08-R4",)),
     Mutant("muldiv-guard-one-sided", ARR, "unyt_array.__array_ufunc__", "                    or u1.base_offset\n                    and u1.dimensions is temperature\n", "", ("C08-R4",)),
     Mutant("diff-offset-allowed", AF, "diff_helper", "        if u.base_offset:", "        if False:", ("C08-R4",)),
     Mutant("twin-row-spelling", LUT, None, '("degC", (1.0, dimensions.temperature, -273.15,', '("degC", (1.0, dimensions.temperature, -2.7315e2,', (), benign=True),
     Mutant("mul-offset-from-dimensionless-side", UO, "Unit.__mul__", "            if u.dimensions in (temperature, angle) and self.is_dimensionless:\n                base_offset = u.base_offset", "            if u.dimensions in (temperature, angle) and self.is_dimensionless:\n                base_offset = self.base_offset", ("C08-R2",)),
     Mutant("setstate-skips-fixer", ARR, "unyt_array.__setstate__", "lut = _correct_old_unit_registry(lut)", "lut = _correct_old_unit_registry(lut) if any(len(v) == 4 for v in lut.values()) else lut", ("C08-R6",)),
     Mutant("eq-swallows-every-unyt-error", ARR, "unyt_array.__eq__", "except (IterableUnitCoercionError, UnitOperationError):", "except UnytError:", ("C08-R8",)),
-    Mutant("in-base-offset-from-source", ARR, "unyt_array.in_base", "        ret = self.v * conv\n        if offset:", "        ret = self.v * conv\n        if self.units.base_offset:", ("C08-R7",)),
+    Mutant("in-base-offset-from-source", ARR, "unyt_array.in_base", "        ret = np.asarray(self.ndview * conv, dtype=new_dtype)\n        if offset:", "        ret = np.asarray(self.ndview * conv, dtype=new_dtype)\n        if self.units.base_offset:", ("C08-R7",)),
     Mutant("preserve-returns-second-label", ARR, "_preserve_units", "        return 1, unit2\n    return 1, unit1", "        return 1, unit2\n    return 1, unit2", ("C08-R5",)),
 ]
